@@ -44,16 +44,16 @@ PROPS["C19"] = dict(
         SC_NOTE,
     ],
     runs=[
-        run("validator", "c19n_rc", "validator", "rc", dict(procs=2, cases=100000), dict(procs=4, cases=800000)),
-        run("validator-noregex", "c19n_rc", "validator_noregex", "rc", dict(procs=1, cases=100000),
+        run("validator", "c19n_rc", "validator", "rc", dict(procs=2, cases=130000), dict(procs=4, cases=800000)),
+        run("validator-noregex", "c19n_rc", "validator_noregex", "rc", dict(procs=1, cases=130000),
             dict(procs=2, cases=800000)),
-        run("bytes", "c19n_rc", "validator_bytes", "rc", dict(procs=1, cases=15000), dict(procs=1, cases=200000)),
-        run("bytes-fuzz", "c19n_fuzz", "validator_bytes", "fuzz", dict(procs=2, cases=250000, max_len=700),
+        run("bytes", "c19n_rc", "validator_bytes", "rc", dict(procs=1, cases=20000), dict(procs=1, cases=200000)),
+        run("bytes-fuzz", "c19n_fuzz", "validator_bytes", "fuzz", dict(procs=2, cases=320000, max_len=700),
             dict(procs=4, cases=2500000, max_len=700), replay_bin="c19n_rc"),
-        run("create-e2e", "c19n_rc", "create_e2e", "rc", dict(procs=2, cases=35000), dict(procs=6, cases=160000)),
-        run("predicate", "c19v_rc", "predicate", "rc", dict(procs=1, cases=100000), dict(procs=2, cases=600000)),
-        run("views", "c19v_rc", "views", "rc", dict(procs=4, cases=25000), dict(procs=8, cases=160000)),
-        run("scope-rules", "c19v_rc", "scope_rules", "rc", dict(procs=2, cases=20000), dict(procs=4, cases=120000)),
-        run("identity", "c19v_rc", "identity", "rc", dict(procs=1, cases=50000), dict(procs=3, cases=300000)),
+        run("create-e2e", "c19n_rc", "create_e2e", "rc", dict(procs=2, cases=45000), dict(procs=6, cases=160000)),
+        run("predicate", "c19v_rc", "predicate", "rc", dict(procs=1, cases=130000), dict(procs=2, cases=600000)),
+        run("views", "c19v_rc", "views", "rc", dict(procs=4, cases=32000), dict(procs=8, cases=160000)),
+        run("scope-rules", "c19v_rc", "scope_rules", "rc", dict(procs=2, cases=26000), dict(procs=4, cases=120000)),
+        run("identity", "c19v_rc", "identity", "rc", dict(procs=1, cases=65000), dict(procs=3, cases=300000)),
     ],
 )
